@@ -83,6 +83,9 @@ type VC struct {
 	inlineSeq int
 	noSafety  bool
 	preludeError string
+	lemma     *Lemma
+	heapAlloc map[string]Term
+	unsup     map[string]bool
 	faddrSeen map[string]Term
 	prop      string
 	axiomsUsed  []string
@@ -93,6 +96,12 @@ type VC struct {
 	unstable  map[string]bool // non-guarded fields read (A7)
 	nameCount map[string]int
 	curProps  []string
+}
+
+// unsupported marks the function as outside the supported subset: its obligations are
+// reported as "unsupported", never as discharged.
+func (vc *VC) unsupported(why string) {
+	vc.unsup[why] = true
 }
 
 func (vc *VC) note(format string, a ...interface{}) {
@@ -182,6 +191,35 @@ func (vc *VC) initHeap(name string, s Sort) Term {
 func (vc *VC) setHeap(st *State, name string, s Sort, t Term) {
 	vc.initHeap(name, s)
 	st.heaps[name] = vc.define(name, s, t)
+	vc.recordAlloc(st, st.heaps[name])
+}
+
+// recordAlloc remembers the allocation counter at the time a heap version was created:
+// every reference stored in that version is <= it ("allocated" invariant).
+func (vc *VC) recordAlloc(st *State, heapTerm Term) {
+	if strings.HasSuffix(heapTerm, "@0") {
+		return
+	}
+	a, ok := st.heaps["$alloc"]
+	if !ok {
+		a = "$alloc@0"
+		vc.initHeap("$alloc", SInt)
+	}
+	if _, seen := vc.heapAlloc[heapTerm]; !seen {
+		vc.heapAlloc[heapTerm] = a
+	}
+}
+
+// allocBound returns the allocation counter that bounds the references held in heapTerm.
+func (vc *VC) allocBound(heapTerm Term, cur Term) Term {
+	if strings.HasSuffix(heapTerm, "@0") {
+		vc.initHeap("$alloc", SInt)
+		return "$alloc@0"
+	}
+	if a, ok := vc.heapAlloc[heapTerm]; ok {
+		return a
+	}
+	return cur
 }
 
 func (vc *VC) havocHeap(st *State, name string) Term {
@@ -195,6 +233,9 @@ func (vc *VC) havocHeap(st *State, name string) Term {
 	}
 	c := vc.fresh(name, s)
 	st.heaps[name] = c
+	if name != "$alloc" {
+		delete(vc.heapAlloc, c) // bounded by the allocation counter current at load time (callee may allocate)
+	}
 	return c
 }
 
@@ -234,6 +275,9 @@ func (vc *VC) mergeStates(edges []Term, sts []*State) *State {
 			t = ite(edges[i], terms[i], t)
 		}
 		out.heaps[k] = vc.define(k, s, t)
+		if k != "$alloc" {
+			vc.recordAlloc(out, out.heaps[k])
+		}
 	}
 	// defers: merge by instruction identity, guards or-ed
 	var order []*ssa.Defer
